@@ -17,6 +17,7 @@ import (
 	"strconv"
 	"strings"
 	"sync"
+	"sync/atomic"
 	"testing"
 	"testing/synctest"
 	"time"
@@ -360,7 +361,7 @@ func c09GenInput(rng *rand.Rand, self string) c09Input {
 		return c09Input{Entry: "QueryReply", Class: "queryreply/" + c, Buf: b, Aux: int64(rng.Intn(4))}
 	default:
 		b, c := c09GenMsg(rng, self)
-		return c09Input{Entry: "KeyReply", Class: "keyreply/" + c, Buf: b, Aux: int64(rng.Intn(3))}
+		return c09Input{Entry: "KeyReply", Class: "keyreply/" + c, Buf: b, Aux: int64(rng.Intn(4))}
 	}
 }
 
@@ -420,6 +421,23 @@ func c09Child(t *testing.T, spec string) {
 		if plain == nil || keyed == nil || conf == nil {
 			return
 		}
+		// the node with the keyring has two real memberlist peers, so that its key operations wait for
+		// (and take in) more replies than its own
+		for i := 0; i < 2; i++ {
+			pr, _ := memberlist.NewKeyring([][]byte{bytes.Repeat([]byte{1}, 16), bytes.Repeat([]byte{2}, 16)}, bytes.Repeat([]byte{3}, 16))
+			pup, err := cluster.StartPuppet(snet, cluster.PuppetOpts{Name: fmt.Sprint("kpeer", i+1), IP: fmt.Sprintf("10.0.1.%d", i+2), Keyring: pr})
+			if err != nil {
+				t.Errorf("puppet: %v", err)
+				return
+			}
+			defer pup.Close()
+			if _, err := pup.ML.Join([]string{keyed.Addr}); err != nil {
+				t.Errorf("puppet join: %v", err)
+				return
+			}
+		}
+		synctest.Wait()
+		stats["keyed_node_memberlist_members"] = keyed.S.Memberlist().NumMembers()
 		nodes := []*cluster.Node{plain, keyed, conf}
 		defer func() {
 			for _, n := range nodes {
@@ -614,8 +632,10 @@ func c09Child(t *testing.T, spec string) {
 						_, _ = keyed.S.KeyManager().ListKeys()
 					case 1:
 						_, _ = keyed.S.KeyManager().InstallKey("AQEBAQEBAQEBAQEBAQEBAQ==")
-					default:
+					case 2:
 						_, _ = keyed.S.KeyManager().RemoveKey("AQEBAQEBAQEBAQEBAQEBAQ==")
+					default:
+						_, _ = keyed.S.KeyManager().UseKey("AwMDAwMDAwMDAwMDAwMDAw==")
 					}
 				}()
 				synctest.Wait()
@@ -623,8 +643,33 @@ func c09Child(t *testing.T, spec string) {
 					if m[0] == wire.Query {
 						var q wire.MsgQuery
 						if wire.Decode(m[1:], &q) == nil {
-							keyed.NotifyMsg(wire.Encode(wire.QueryResponse, &wire.MsgQueryResponse{LTime: q.LTime, ID: q.ID, From: "peer1", Flags: []uint32{0, 0, 1, 3, math.MaxUint32}[rng.Intn(5)], Payload: in.Buf}))
-							keyed.NotifyMsg(wire.Encode(wire.QueryResponse, &wire.MsgQueryResponse{LTime: q.LTime, ID: q.ID, From: "peer2", Payload: c09ByteMutate(rng, wire.Encode(wire.KeyResponse, &wire.NodeKeyResponse{Result: true, Keys: []string{"k"}}))}))
+							// two replies in either order, the operation taking in the first before the second
+							// arrives (it stops reading once as many nodes have answered as memberlist counts):
+							// an arbitrary payload, and a well-formed key reply whose fields are filled whatever
+							// the operation was (keys and primary key also in answer to install/use/remove)
+							kr := wire.NodeKeyResponse{Result: rng.Intn(2) == 0, Message: []string{"", "m"}[rng.Intn(2)]}
+							for k, n := 0, rng.Intn(4); k < n; k++ {
+								kr.Keys = append(kr.Keys, fmt.Sprint("k", k%2))
+							}
+							if rng.Intn(2) == 0 {
+								kr.PrimaryKey = "k0"
+							}
+							structured := wire.Encode(wire.KeyResponse, &kr)
+							if rng.Intn(3) == 0 {
+								structured = c09ByteMutate(rng, structured)
+							}
+							replies := [][]byte{
+								wire.Encode(wire.QueryResponse, &wire.MsgQueryResponse{LTime: q.LTime, ID: q.ID, From: "peer1", Flags: []uint32{0, 0, 1, 3, math.MaxUint32}[rng.Intn(5)], Payload: in.Buf}),
+								wire.Encode(wire.QueryResponse, &wire.MsgQueryResponse{LTime: q.LTime, ID: q.ID, From: "peer2", Payload: structured}),
+							}
+							if rng.Intn(2) == 0 {
+								replies[0], replies[1] = replies[1], replies[0]
+							}
+							for _, rp := range replies {
+								stats["key_replies_injected"]++
+								keyed.NotifyMsg(rp)
+								synctest.Wait()
+							}
 						}
 					}
 				}
@@ -650,10 +695,120 @@ func c09Child(t *testing.T, spec string) {
 	fmt.Fprintf(logf, "DONE %d\n", start+count)
 }
 
+
+// c09Storm (child process, real time): replies and acks for queries - running ones, finished
+// ones, ones that never existed - arrive from the network on several goroutines (memberlist
+// hands every packet and stream to NotifyMsg on a goroutine of its own) while the node's own
+// goroutines start queries and the queries' timers retire them. Whatever the interleaving,
+// the process survives and keeps serving.
+func c09Storm(t *testing.T, spec string) {
+	// spec: storm|dir|seed|index
+	f := strings.Split(spec, "|")
+	dir := f[1]
+	seed, _ := strconv.ParseInt(f[2], 10, 64)
+	idx, _ := strconv.Atoi(f[3])
+	logf, err := os.OpenFile(filepath.Join(dir, "inputs.log"), os.O_CREATE|os.O_WRONLY|os.O_APPEND, 0o644)
+	if err != nil {
+		t.Fatal(err)
+	}
+	defer logf.Close()
+	rng := rand.New(rand.NewSource(seed*7919 + int64(idx)))
+	issuers, feeders := 2+rng.Intn(5), 2+rng.Intn(7)
+	perIssuer, perFeeder := 150+rng.Intn(300), 10000+rng.Intn(30000)
+	fmt.Fprintf(logf, "IN %d QueryReplyStorm storm/i%d-f%d 0 %s\n", idx, issuers, feeders, hex.EncodeToString([]byte(fmt.Sprintf("issuers=%d x %d queries, feeders=%d x %d replies", issuers, perIssuer, feeders, perFeeder))))
+	snet := simnet.New(seed)
+	nd, err := cluster.Start(snet, cluster.Opts{Name: "self", IP: "10.0.0.1", Profile: "passive", EventBuf: 1 << 12})
+	if err != nil {
+		t.Fatalf("start: %v", err)
+	}
+	defer nd.Close()
+	nd.NotifyJoin(cluster.FakeNode("peer1", "10.0.0.2", 7946, nil))
+	nd.NotifyJoin(cluster.FakeNode("peer2", "10.0.0.3", 7946, nil))
+	var clock atomic.Uint64
+	clock.Store(1)
+	var wg sync.WaitGroup
+	var issued, injected atomic.Int64
+	start := make(chan struct{})
+	for g := 0; g < issuers; g++ {
+		lr := rand.New(rand.NewSource(rng.Int63()))
+		wg.Add(1)
+		go func() {
+			defer wg.Done()
+			<-start
+			for k := 0; k < perIssuer; k++ {
+				p := nd.S.DefaultQueryParams()
+				p.Timeout = time.Duration(200+lr.Intn(3000)) * time.Microsecond
+				p.RequestAck = lr.Intn(2) == 0
+				if _, err := nd.S.Query("storm", []byte("x"), p); err == nil {
+					issued.Add(1)
+				}
+				var cur uint64
+				fmt.Sscan(nd.S.Stats()["query_time"], &cur)
+				clock.Store(cur)
+				if lr.Intn(4) == 0 {
+					time.Sleep(time.Duration(lr.Intn(300)) * time.Microsecond)
+				}
+			}
+		}()
+	}
+	for g := 0; g < feeders; g++ {
+		lr := rand.New(rand.NewSource(rng.Int63()))
+		wg.Add(1)
+		go func() {
+			defer wg.Done()
+			<-start
+			for k := 0; k < perFeeder; k++ {
+				lt := clock.Load() + uint64(lr.Intn(3))
+				if d := uint64(lr.Intn(4)); lt > d {
+					lt -= d
+				}
+				flags := uint32(0)
+				if lr.Intn(2) == 0 {
+					flags = 1 // ack
+				}
+				msg := wire.Encode(wire.QueryResponse, &wire.MsgQueryResponse{LTime: lt, ID: lr.Uint32(), From: fmt.Sprint("peer", 1+lr.Intn(2)), Flags: flags, Payload: []byte("r")})
+				if lr.Intn(5) == 0 {
+					msg = wire.EncodeRelay(net.UDPAddr{IP: net.IP{10, 0, 0, 1}, Port: 7946}, "self", msg)
+				}
+				nd.NotifyMsg(msg)
+				injected.Add(1)
+			}
+		}()
+	}
+	stop := make(chan struct{})
+	go func() {
+		for {
+			select {
+			case <-stop:
+				return
+			case <-time.After(5 * time.Millisecond):
+				nd.DrainBroadcasts()
+			}
+		}
+	}()
+	close(start)
+	wg.Wait()
+	close(stop)
+	time.Sleep(20 * time.Millisecond)
+	// canary
+	if nd.S.State() != serf.SerfAlive {
+		fmt.Fprintf(logf, "CANARY-FAIL %d state=%v\n", idx, nd.S.State())
+	} else if err := nd.S.UserEvent("canary", nil, false); err != nil {
+		fmt.Fprintf(logf, "CANARY-FAIL %d userevent err=%v\n", idx, err)
+	}
+	b, _ := json.Marshal(map[string]int{"storm_queries_issued": int(issued.Load()), "storm_replies_injected": int(injected.Load()), "storms": 1})
+	_ = os.WriteFile(filepath.Join(dir, "stats.json"), b, 0o644)
+	fmt.Fprintf(logf, "DONE %d\n", idx)
+}
+
 var c09PanicFrame = regexp.MustCompile(`(?m)^(github\.com/hashicorp/serf/[^\s(]+(?:\([^)]*\))?[^\s(]*)\(`)
 
 func TestC09(t *testing.T) {
 	if spec := os.Getenv("VERIF_C09_CHILD"); spec != "" {
+		if strings.HasPrefix(spec, "storm|") {
+			c09Storm(t, spec)
+			return
+		}
 		c09Child(t, spec)
 		return
 	}
@@ -754,6 +909,78 @@ func TestC09(t *testing.T) {
 			respawns++
 		}
 	})
+	// reply storms: the deciding observation is the survival of the child process
+	storms := 12
+	if !r.Quick() {
+		storms = 200
+	}
+	r.Cases("storm", storms, 4, func(si int, _ *rand.Rand) {
+		dir := filepath.Join(base, fmt.Sprint("s", si))
+		_ = os.MkdirAll(dir, 0o755)
+		ctx, cancel := context.WithTimeout(context.Background(), 10*time.Minute) // watchdog only
+		defer cancel()
+		cmd := exec.CommandContext(ctx, os.Args[0], "-test.run", "^TestC09$", "-test.timeout", "15m")
+		cmd.Env = append(os.Environ(), fmt.Sprintf("VERIF_C09_CHILD=storm|%s|%d|%d", dir, r.Seed, si), "VERIF_RESULT=", "GORACE=")
+		errf, _ := os.Create(filepath.Join(dir, "stderr"))
+		cmd.Stdout, cmd.Stderr = errf, errf
+		runErr := cmd.Run()
+		errf.Close()
+		logb, _ := os.ReadFile(filepath.Join(dir, "inputs.log"))
+		done := strings.Contains(string(logb), "\nDONE ")
+		var first string
+		for _, l := range strings.Split(string(logb), "\n") {
+			if strings.HasPrefix(l, "IN ") {
+				first = l
+				f := strings.SplitN(l, " ", 6)
+				mu.Lock()
+				classes[f[2]+"/"+f[3]]++
+				mu.Unlock()
+			}
+			if strings.HasPrefix(l, "CANARY-FAIL") {
+				r.Violation("canary", si, "node stopped serving after a reply storm: "+l, map[string]any{"line": l, "storm": first})
+			}
+		}
+		r.Eval(1)
+		if sb, err := os.ReadFile(filepath.Join(dir, "stats.json")); err == nil && done {
+			var st map[string]int
+			if json.Unmarshal(sb, &st) == nil {
+				for k, v := range st {
+					r.Count(k, v)
+				}
+			}
+		}
+		if done && runErr == nil {
+			return
+		}
+		se, _ := os.ReadFile(filepath.Join(dir, "stderr"))
+		msg := string(se)
+		pi := strings.Index(msg, "panic:")
+		if fi := strings.Index(msg, "fatal error:"); fi >= 0 && (pi < 0 || fi < pi) {
+			pi = fi
+		}
+		if pi < 0 {
+			r.Inconclusive(fmt.Sprintf("storm child %d failed without a panic (%v): %s", si, runErr, c09Tail(msg, 400)))
+			return
+		}
+		msg = msg[pi:]
+		frame := "unknown"
+		for _, m := range c09PanicFrame.FindAllStringSubmatch(msg, -1) {
+			if !strings.Contains(m[1], "/harness/") {
+				frame = m[1]
+				break
+			}
+		}
+		if frame == "unknown" {
+			r.Inconclusive(fmt.Sprintf("storm child %d crashed outside serf: %s", si, c09Tail(msg, 600)))
+			return
+		}
+		mu.Lock()
+		crashes++
+		mu.Unlock()
+		firstLine := strings.SplitN(msg, "\n", 2)[0]
+		r.Violation("panic@"+frame, si, fmt.Sprintf("%s in %s while replies and acks arrive during the node's own queries: %s", firstLine, frame, first),
+			map[string]any{"storm": first, "panic": firstLine, "stack": c09Head(msg, 3000)})
+	})
 	mu.Lock()
 	for k, v := range classes {
 		r.Distinct(k)
@@ -770,7 +997,7 @@ func TestC09(t *testing.T) {
 	r.Extra("distinct_input_classes", nClasses)
 	r.Count("child_crashes", crashes)
 	r.Sample(map[string]any{"entry": "NotifyMsg", "class": "treemut/t4.Filters", "hex": hex.EncodeToString(wire.Encode(wire.Query, &wire.MsgQuery{LTime: 3, Name: "app", Filters: [][]byte{{}}}))})
-	r.Finish("structure-aware mutation (one or two msgpack tree nodes replaced by boundary values), byte-level mutation, re-typed bodies and random bytes over valid messages of all ten gossip types, push/pull state, ping payloads, member metadata, conflict and key-reply payloads; distinct = (entry point, message type, mutated field path) classes; every input logged before the call in a child process, quiescence after each, canary every 250 inputs",
+	r.Finish("structure-aware mutation (one or two msgpack tree nodes replaced by boundary values), byte-level mutation, re-typed bodies and random bytes over valid messages of all ten gossip types, push/pull state, ping payloads, member metadata, conflict and key-reply payloads; distinct = (entry point, message type, mutated field path) classes; every input logged before the call in a child process, quiescence after each, canary every 250 inputs; replies to the node's own key operations arrive in either order from two real memberlist peers (well-formed key replies with every field filled whatever the operation, and arbitrary payloads); plus reply storms in child processes of their own (real time): 2-8 goroutines deliver 10-40 thousand replies/acks each (direct and relayed, for running, finished and unknown queries) while 2-6 goroutines start queries with 0.2-3 ms timeouts",
 		40, "panic in a goroutine started by an input surfaces before the next input (synctest.Wait quiescence)", "a conflict vote lost for lack of answers legitimately shuts the node down")
 	_ = io.Discard
 }
